@@ -179,10 +179,10 @@ var plans = map[string]*Plan{
 		},
 		CrashSig: rengCrash("C17"),
 	},
-	"C02": ctlPlan("C02", 25, 1250, map[string]int64{"io_write": 500, "replica_images_compared": 200},
+	"C02": ctlPlan("C02", 100, 2500, map[string]int64{"io_write": 500, "replica_images_compared": 200},
 		"controller histories for RF 1..5 (RF = worker index mod 5 + 1): bring-up through register/start/add/file-sync/verify, then 10-40 I/O operations each with a fault assignment (ok, error, applied-then-error, timeout, error with monitor event before/after) per attached replica - enumerated round-robin for <=3 attached replicas, sampled with forced corners above - interleaved with replacement replicas, monitor failures, resizes and range probes; "+
 			"per operation: acknowledged => strictly more than half of the attached replicas applied it, failed replicas detached when the call returns; at quiescent points every attached replica holds every acknowledged write; non-trivial = case contains a fault assignment; distinct = hash of (RF, membership state, fault vector) sequence"),
-	"C04": ctlPlan("C04", 25, 1250, map[string]int64{"io_read": 1000, "read_sweeps": 200},
+	"C04": ctlPlan("C04", 100, 2500, map[string]int64{"io_read": 1000, "read_sweeps": 200},
 		"C02's histories with reads issued at every position of the round-robin cursor after each change (|readers| consecutive reads), read faults on subsets of the RW replicas, WO replicas holding a poison pattern for everything they were not sent; "+
 			"a read may only reach RW replicas, a successful read equals the model of acknowledged writes, a failed reader is detached and another RW replica serves; non-trivial = case contains a fault assignment; distinct as C02"),
 	"C05": withCluster(ctlPlan("C05", 25, 1250, map[string]int64{"io_write": 500, "settled_points": 500, "rebuild_cycles": 1},
@@ -191,7 +191,7 @@ var plans = map[string]*Plan{
 	"C03": ctlPlan("C03", 19, 375, map[string]int64{"settled_points": 500, "mutations_attempted_readonly": 50},
 		"membership walks for RF 1..5: 4-14 changes drawn from add, file-sync+verify, explicit removal, monitor failure (with and without process death), operator set-mode ERR/RW, I/O with fault assignments, duplicate/unknown-address requests, snapshots with a failing replica, late register/start requests, restart and re-add; after every change the state is settled (every triggered monitor event acted upon, state stable) and: ReadOnly == (#RW < RF/2+1), a probe write/flush/unmap is refused without reaching any replica iff read-only, and accepted when a quorum is RW; "+
 			"non-trivial = walk visits >2 distinct (RW,WO,ERR,RO,checkpoint) states or contains faults; distinct = hash of the step/state sequence"),
-	"C18": ctlPlan("C18", 25, 1250, map[string]int64{"settled_points": 1000},
+	"C18": ctlPlan("C18", 100, 2500, map[string]int64{"settled_points": 1000},
 		"membership walks of 10-40 requests (see C03) for RF 1..5; at every settled point: no address twice, #replicas <= RF, #WO <= 1, RWReplicaCount == #RW entries, replica list == replicator backend map (addresses and modes), writer list == non-ERR entries, reader list == RW entries, writes reach exactly the writers, reads only readers, and a detached replica receives no call after its Close; "+
 			"non-trivial and distinct as C03; the number of distinct membership states visited is reported"),
 	"C13": withCluster(ctlPlan("C13", 19, 625, map[string]int64{"snapshots_under_concurrent_writes": 100, "checkpoint_recordings": 100, "checkpoint_withdrawals": 50},
